@@ -120,6 +120,49 @@ func toMatchers(ms []mspec) amcommoncfg.Matchers {
 	return out
 }
 
+// mixedRule: the rule of the header; every other rule carries the first matcher of a side in the deprecated
+// source_match / source_match_re / target_match / target_match_re fields when a side has at least two matchers and the
+// first one is positive (the deprecated forms have no negation) — a rule is the conjunction of all three forms
+func mixedRule(k int, x rspec) amcommoncfg.InhibitRule {
+	r := amcommoncfg.InhibitRule{Equal: x.equal}
+	split := func(ms []mspec) (map[string]string, map[string]string, []mspec) {
+		if k%2 == 1 || len(ms) < 2 || (ms[0].op != "eq" && ms[0].op != "re") {
+			return nil, nil, ms
+		}
+		for _, o := range ms[1:] {
+			if o.name == ms[0].name {
+				return nil, nil, ms // the deprecated forms are maps: one entry per label name
+			}
+		}
+		if ms[0].op == "eq" {
+			return map[string]string{ms[0].name: ms[0].value}, nil, ms[1:]
+		}
+		return nil, map[string]string{ms[0].name: ms[0].value}, ms[1:]
+	}
+	eq, re, rest := split(x.src)
+	r.SourceMatch, r.SourceMatchers = eq, toMatchers(rest)
+	r.SourceMatchRE = toRegexps(re)
+	eq, re, rest = split(x.tgt)
+	r.TargetMatch, r.TargetMatchers = eq, toMatchers(rest)
+	r.TargetMatchRE = toRegexps(re)
+	return r
+}
+
+func toRegexps(m map[string]string) amcommoncfg.MatchRegexps {
+	if m == nil {
+		return nil
+	}
+	out := amcommoncfg.MatchRegexps{}
+	for k, v := range m {
+		re, err := regexp.Compile("^(?:" + v + ")$")
+		if err != nil {
+			panic(err)
+		}
+		out[k] = amcommoncfg.Regexp{Regexp: re, Original: v}
+	}
+	return out
+}
+
 // ---- world ----
 
 type world struct {
@@ -245,8 +288,9 @@ func (w *world) exec(line string) string {
 		ls := decLabels(t[2])
 		ih := inhibit.NewInhibitor(w.alerts, w.rules, promslog.NewNopLogger(), eventrecorder.NopRecorder())
 		go ih.Run()
+		// WaitForLoading is the contract app/reloader.go relies on: once it returns, the alerts the provider held are
+		// in the inhibitor (no further settling here)
 		ih.WaitForLoading()
-		synctest.Wait()
 		v, _ := mutesOf(ih, ls)
 		ih.Stop()
 		synctest.Wait()
@@ -355,8 +399,8 @@ func runCase(t *testing.T, tr *hx.Trace, id int, r *rand.Rand, script []string) 
 		if err != nil {
 			t.Fatal(err)
 		}
-		for _, x := range rules {
-			w.rules = append(w.rules, amcommoncfg.InhibitRule{SourceMatchers: toMatchers(x.src), TargetMatchers: toMatchers(x.tgt), Equal: x.equal})
+		for k, x := range rules {
+			w.rules = append(w.rules, mixedRule(k, x))
 		}
 		w.ih = inhibit.NewInhibitor(w.alerts, w.rules, promslog.NewNopLogger(), eventrecorder.NopRecorder())
 		go w.ih.Run()
